@@ -362,6 +362,49 @@ fn c14_szx_spcr() {
 }
 
 // @harness
+// @prop C09 C14
+// @tier quick
+// @features precise-border
+// @timeout 600
+// @fn szx::process_spcr_block; ZXController::write_fe; ZXController::set_border_color; ZXBorder::set_border
+// @sym chBorder 0..7, chFe (all 256, colour bits not assumed equal to chBorder), 7FFD byte; receiver border colour, frame clock; both machines
+// @assert after the SPCR chunk the colour the border device paints from the current beam position onwards is the chunk's border - the same colour that is reported to the host - so a write-free frame after the load shows the snapshot's border everywhere (was KF-C09-1)
+// @bound one chunk per machine
+// @stub ZXBorder::fill_to -> range summary (justified by c09_fill_range; the painted range is not the subject here)
+// @replay solver-only
+#[cfg(feature = "precise-border")]
+#[kani::proof]
+#[kani::unwind(10)]
+#[kani::stub(crate::zx::video::border::ZXBorder::fill_to, crate::zx::video::border::verif_hooks::fill_to_summary)]
+fn c09_szx_border_reaches_the_border_device() {
+    use crate::zx::video::border::verif_hooks::device_colour;
+    let border: u8 = kani::any();
+    kani::assume(border <= 7);
+    let fe: u8 = kani::any();
+    let body = spec_spcr(border, kani::any(), kani::any(), fe, kani::any());
+    let fc: usize = kani::any();
+    kani::assume(fc < 69888);
+    let mut e = mk_emulator(ZXMachine::Sinclair128K, CTX);
+    controller(&mut e).set_border_color(0, crate::verif_hooks::any_color());
+    controller(&mut e).frame_clocks = fc;
+    let r = process_spcr_block(&mut e, 2, &body);
+    kani::assert(r.is_ok(), "c09.szx.spcr_accepted_128");
+    let c = controller(&mut e);
+    kani::assert(u8::from(c.border_color) == border, "c09.szx.reported_border_128");
+    kani::assert(device_colour(&c.border) == border, "c09.szx.device_paints_snapshot_border_128");
+    let mut e = mk_emulator(ZXMachine::Sinclair48K, CTX);
+    controller(&mut e).set_border_color(0, crate::verif_hooks::any_color());
+    controller(&mut e).frame_clocks = fc;
+    let r = process_spcr_block(&mut e, 1, &body);
+    kani::assert(r.is_ok(), "c09.szx.spcr_accepted_48");
+    let c = controller(&mut e);
+    kani::assert(u8::from(c.border_color) == border, "c09.szx.reported_border_48");
+    kani::assert(device_colour(&c.border) == border, "c09.szx.device_paints_snapshot_border_48");
+    kani::cover!(fe & 7 != border, "chFe colour bits differ from chBorder");
+    kani::cover!(fe & 7 == border && fc > 20000, "consistent chunk in mid frame");
+}
+
+// @harness
 // @prop C14
 // @tier quick
 // @timeout 600
